@@ -414,12 +414,25 @@ static int em;
 static enc_fn efn;
 static MPT_STRUCT(encode_state) est;
 static struct gbuf eout;          /* direct path output space */
-static size_t ecap, epre;
+static size_t ecap, epre, econs;
 static uint8_t *emsg; static size_t emsg_len, eacc;
 static int efinished;
 static MPT_STRUCT(encode_array) earr;
 static MPT_STRUCT(encode_queue) equ;
 static int earr_used, equ_used;
+
+/* the array/queue paths call the encoder through this wrapper, which only
+ * counts: calls, and calls that accepted bytes (installments) since the last reset */
+static long enc_calls, enc_inst, enc_inst_max;
+static ssize_t enc_counted(MPT_STRUCT(encode_state) *st, const struct iovec *to, const struct iovec *from)
+{
+	ssize_t r = efn(st, to, from);
+	if (to) {
+		++enc_calls;
+		if (from && r > 0) ++enc_inst;
+	}
+	return r;
+}
 
 static void enc_cleanup(void)
 {
@@ -461,7 +474,8 @@ static uint8_t *e_frame(size_t *len)
 	tmp = (uint8_t *) calloc(*len + 1, 1);
 	if (!strcmp(epath, "array")) {
 		MPT_STRUCT(buffer) *b = earr._d._buf;
-		if (b && b->_used >= done) memcpy(tmp, ((uint8_t *) (b + 1)) + epre, *len);
+		/* the encoder area is the tail of the used data (consumed frames may sit in front) */
+		if (b && b->_used >= done + scratch) memcpy(tmp, ((uint8_t *) (b + 1)) + (b->_used - done - scratch) + epre, *len);
 		else *len = 0;
 	} else if (!strcmp(epath, "queue")) {
 		if (*len && mpt_queue_get(&equ.data, epre, *len, tmp) < 0) *len = 0;
@@ -491,6 +505,7 @@ static void e_room(void)
 static ssize_t e_offer(size_t k)
 {
 	ssize_t r;
+	enc_inst = 0;
 	if (!strcmp(epath, "array")) {
 		r = mpt_array_push(&earr, k, emsg + eacc);
 	} else if (!strcmp(epath, "queue")) {
@@ -503,6 +518,7 @@ static ssize_t e_offer(size_t k)
 		if (!g_ok(&eout)) guards_good = 0;
 	}
 	if (r > 0 && (size_t) r <= k) eacc += (size_t) r;
+	if (enc_inst > enc_inst_max) enc_inst_max = enc_inst;
 	return r;
 }
 static ssize_t e_term(void)
@@ -542,6 +558,9 @@ static void emit_enc_dbg(void)
 	j_int("scratch", (long long) scratch);
 	j_int("cap", (long long) ecap);
 	j_int("acc", (long long) eacc);
+	j_int("inst", enc_inst);          /* installments the encoder took the last offer in */
+	j_int("inst_max", enc_inst_max);
+	j_int("consumed", (long long) econs);
 }
 
 static void act_einit(struct cmd *c)
@@ -554,23 +573,29 @@ static void act_einit(struct cmd *c)
 	efn = get_enc(ekind, em);
 	ecap = (size_t) drv_uint(c, "cap", 0);
 	epre = (size_t) drv_uint(c, "pre", 0);
+	econs = (size_t) drv_uint(c, "consumed", 0);
 	emsg = drv_bytes(c, "msg", &emsg_len);
 	eacc = 0; efinished = 0; guards_good = 1;
+	enc_calls = enc_inst = enc_inst_max = 0;
 	memset(&est, 0, sizeof(est));
 	if (!strcmp(epath, "array")) {
 		earr_used = 1;
-		earr._enc = efn;
+		earr._enc = efn ? enc_counted : 0;
 		if (epre) {
 			/* earlier finished output in the same array */
 			static const uint8_t one = 0x11;
 			size_t i;
 			for (i = 0; i + 2 < epre; i++) if (mpt_array_push(&earr, 1, &one) != 1) break;
 			if (mpt_array_push(&earr, 0, 0) < 0) efn = 0;
+			/* the reader consumed part of the finished output: it stays in front of
+			 * the encoder area, only the finished size shrinks (encode_array::shift(len)) */
+			if (econs > earr._state.done) econs = earr._state.done;
+			earr._state.done -= econs;
 			epre = earr._state.done;
 		}
 	} else if (!strcmp(epath, "queue")) {
 		equ_used = 1;
-		equ._enc = efn;
+		equ._enc = efn ? enc_counted : 0;
 		if (epre) {
 			/* an earlier finished frame in the same queue */
 			static const uint8_t one = 0x11;
@@ -578,6 +603,11 @@ static void act_einit(struct cmd *c)
 			mpt_queue_prepare(&equ.data, epre + 4);
 			for (i = 0; i + 2 < epre; i++) if (mpt_queue_push(&equ, 1, &one) != 1) break;
 			if (mpt_queue_push(&equ, 0, 0) < 0) efn = 0;
+			/* the reader wrote part of the finished output out (mpt_stream_flush):
+			 * cropped from the queue, finished size reduced; the ring offset moves */
+			if (econs > equ._state.done) econs = equ._state.done;
+			if (econs && mpt_queue_crop(&equ.data, 0, econs) >= 0) equ._state.done -= econs;
+			else econs = 0;
 			epre = equ._state.done;
 		}
 		if (ecap) mpt_queue_prepare(&equ.data, ecap);
